@@ -229,9 +229,15 @@ func runLedgerWorkload(r *ev.Run, st *Stack, g *rng.R, caseID string, cfg c01Cfg
 									continue
 								}
 								p := led.mk(lg, node.Idx, dst, L, 0)
-								v, pristine := segment(lg, p)
 								// the vector itself may be modified by Tell (net.Buffers semantics); the buffers may not: keep our own handles
-								segs := append([][]byte{}, v...)
+								var v p2p.IOVec
+								var segs, pristine [][]byte
+								if lg.Chance(1, 3) {
+									v, segs, pristine = segmentArena(lg, p) // segments sliced out of one buffer, with spare capacity behind each
+								} else {
+									v, pristine = segment(lg, p)
+									segs = append([][]byte{}, v...)
+								}
 								timeout := 10 * time.Second
 								if L > 4096 && lg.Chance(1, 3) {
 									// a deadline that may expire while the message is being written out: whatever is delivered must still be whole
@@ -243,8 +249,10 @@ func runLedgerWorkload(r *ev.Run, st *Stack, g *rng.R, caseID string, cfg c01Cfg
 								cf()
 								for k := range segs {
 									if !bytes.Equal(segs[k], pristine[k]) {
-										viol("sender-buffer-modified", "Tell modified one of the caller's buffers", map[string]any{"sender": node.Idx, "segment": k, "len": L})
+										viol("sender-buffer-modified", "Tell modified one of the caller's buffers", map[string]any{"sender": node.Idx, "segment": k, "segments": len(v), "len": L})
 									}
+								}
+								for k := range segs {
 									for j := range segs[k] {
 										segs[k][j] = 0xEE // may be overwritten as soon as Tell returns
 									}
@@ -396,7 +404,12 @@ func runC01(r *ev.Run) {
 		if sf.Name == "frag(mem)" || sf.Name == "mbapp(mem)" || sf.Name == "quic(mem)" {
 			skewed = 1
 		}
-		for rep := 0; rep < reps+shortq+skewed; rep++ {
+		lossy := 0
+		switch sf.Name {
+		case "mem", "secmem", "mux-string(mem)", "frag(mem)":
+			lossy = 1 // a link emulation that wipes what it drops: it must have been given its own copy
+		}
+		for rep := 0; rep < reps+shortq+skewed+lossy; rep++ {
 			idx++
 			cg := g.Fork()
 			if !r.Mine(idx) || (onlySkew && rep < reps+shortq) {
@@ -407,7 +420,9 @@ func runC01(r *ev.Run) {
 				continue
 			}
 			so := stackOptsFor(sf.Name, cg)
-			if rep >= reps+shortq {
+			if rep >= reps+shortq+skewed {
+				so.lossy = true
+			} else if rep >= reps+shortq {
 				// peers that disagree about the limit: node i is configured with MTU>>i
 				so.skew = true
 				if sf.Name == "quic(mem)" {
@@ -429,9 +444,16 @@ func runC01(r *ev.Run) {
 				r.Inconclusive("no delivery observed on " + st.Name)
 			}
 			if rep == 0 || rep >= reps {
-				r.Sample(map[string]any{"stack": st.Name, "mtu": st.Nodes[0].MTU(), "inner_mtu": st.InnerMTU, "queue_len": so.queueLen, "skewed_mtu": so.skew, "senders_per_node": cfg.senders, "receivers_per_node": cfg.receivers, "delivered": d})
+				r.Sample(map[string]any{"stack": st.Name, "mtu": st.Nodes[0].MTU(), "inner_mtu": st.InnerMTU, "queue_len": so.queueLen, "skewed_mtu": so.skew, "lossy_link": so.lossy, "senders_per_node": cfg.senders, "receivers_per_node": cfg.receivers, "delivered": d})
 			}
 		}
 	}
 	c01WrongIdentity(r, g)
+	// the largest message of the reassembling layers, over parts a few bytes long
+	for li, layer := range c10Layers() {
+		lg := g.Fork()
+		if r.Mine(6000 + li) {
+			c10LargestMessage(r, lg, "C01", layer)
+		}
+	}
 }
